@@ -386,3 +386,77 @@ func joinPath(p []string) string {
 	}
 	return out
 }
+
+func init() {
+	register(&Rule{ID: "C19.R5", Min: 1,
+		Text: "Reduce strips every trailing zero whatever their number: in Decimal.Reduce (and the helpers it may be split into) each loop that divides the big coefficient by a power of ten leaves only where the remainder of that division is non-zero — not after a fixed number of rounds",
+		Run:  ruleReduceStripsAll})
+}
+
+func ruleReduceStripsAll(w *World, r *RuleResult) {
+	top := w.fn("(*Decimal).Reduce")
+	if top == nil {
+		r.anchorMissing("(*Decimal).Reduce")
+		return
+	}
+	n := 0
+	for _, f := range w.closureFuncs(top) {
+		for h, body := range loopsOf(f) {
+			var rems []ssa.Value
+			for b := range body {
+				for _, in := range b.Instrs {
+					if c, ok := in.(*ssa.Call); ok && w.calleeName(c) == "(*BigInt).QuoRem" && len(c.Common().Args) == 4 {
+						rems = append(rems, basePtr(c.Common().Args[3]))
+					}
+				}
+			}
+			if len(rems) == 0 {
+				continue
+			}
+			n++
+			key := fmt.Sprintf("%s | big-coefficient stripping loop exits on a non-zero remainder", w.shortName(f))
+			if k := countKey(r, key); k > 0 {
+				key = fmt.Sprintf("%s #%d", key, k+1)
+			}
+			var bad []string
+			exits := 0
+			for b := range body {
+				iff, ok := b.Instrs[len(b.Instrs)-1].(*ssa.If)
+				if !ok {
+					continue
+				}
+				leaves := false
+				for _, s := range b.Succs {
+					if !body[s] {
+						leaves = true
+					}
+				}
+				if !leaves {
+					continue
+				}
+				exits++
+				onRem := false
+				if bo, isB := iff.Cond.(*ssa.BinOp); isB {
+					if call, isC := bo.X.(*ssa.Call); isC && w.calleeName(call) == "(*BigInt).Sign" {
+						for _, rm := range rems {
+							if basePtr(call.Common().Args[0]) == rm {
+								onRem = true
+							}
+						}
+					}
+				}
+				if !onRem {
+					bad = append(bad, fmt.Sprintf("exit on %s at %s", short(w.exprOf(f, iff.Cond).String(), 80), w.instrPos(iff)))
+				}
+			}
+			if len(bad) > 0 || exits == 0 {
+				r.bad(key, w.instrPos(h.Instrs[0]), "the loop can end although the last remainder was zero ("+joinStrings(bad)+"): a coefficient with more trailing zeros than the loop's bound keeps some of them, and the count returned is too small")
+			} else {
+				r.ok(key, w.instrPos(h.Instrs[0]), "the only exits test the QuoRem remainder", true)
+			}
+		}
+	}
+	if n == 0 {
+		r.ok("(*Decimal).Reduce | big-coefficient stripping loop", w.pos(top.Pos()), "no QuoRem loop found: this shape is not decided", false)
+	}
+}
